@@ -1341,6 +1341,19 @@ PREFIX(_intersect_rect) (region_type_t *dest,
     region.extents.x2 = x + width;
     region.extents.y2 = y + height;
 
+    if (!GOOD_RECT (&region.extents))
+    {
+        if (BAD_RECT (&region.extents))
+            _pixman_log_error (FUNC, "Invalid rectangle passed");
+
+	/* An empty rectangle is the empty region, not a region with one
+	 * degenerate box.
+	 */
+	region.extents.x2 = region.extents.x1;
+	region.extents.y2 = region.extents.y1;
+	region.data = pixman_region_empty_data;
+    }
+
     return PREFIX(_intersect) (dest, source, &region);
 }
 
